@@ -38,10 +38,34 @@ def alloc (p : Pool) (siz0 : Nat) : Pool × Nat × Nat :=
 
 def isSpace (c : Nat) : Bool := c = 32 ∨ (9 ≤ c ∧ c ≤ 13)
 
-/-- trimming of `[sp, ep)` in `iwpool_split_string` (fixed: stays inside the token) -/
+/-- reference trimming rule: white space stripped at both ends of the token, nothing else -/
 def trimTok (t : Bytes) : Bytes := ((t.dropWhile isSpace).reverse.dropWhile isSpace).reverse
 
-/-- the scan of `iwpool_split_string`: (start of the current token, tokens so far) after looking at position `i` -/
+/-- `hay[a, b)` -/
+def slice (hay : Bytes) (a b : Nat) : Bytes := (hay.drop a).take (b - a)
+
+/-- `while (sp < ep && iwchars_is_space(*sp)) ++sp;` (fuel = `ep - sp`) -/
+def trimL (hay : Bytes) (ep : Nat) : Nat → Nat → Nat
+  | 0, sp => sp
+  | f + 1, sp => if sp < ep ∧ isSpace (hay.getD sp 0) then trimL hay ep f (sp + 1) else sp
+
+/-- `while (ep > sp && iwchars_is_space(*(ep - 1))) --ep;` (fixed code: stays inside the token) -/
+def trimR (hay : Bytes) (sp : Nat) : Nat → Nat → Nat
+  | 0, ep => ep
+  | f + 1, ep => if ep > sp ∧ isSpace (hay.getD (ep - 1) 0) then trimR hay sp f (ep - 1) else ep
+
+/-- the token `iwpool_split_string` copies out of `[sp, ep)` -/
+def token (hay : Bytes) (ws : Bool) (sp ep : Nat) : Bytes :=
+  if ws then
+    let sp' := trimL hay ep (ep - sp) sp
+    let ep' := trimR hay sp' (ep - sp') ep
+    slice hay sp' ep'
+  else slice hay sp ep
+
+/-- the scan of `iwpool_split_string`: (start of the current token, tokens so far) after looking at position `i`.
+`ep == haystack + i` at the top of every iteration and `sp ≤ ep`, so the guard `ep >= sp` is always true;
+the last character closes a token whether or not it is a separator (`*(ep + 1) == 0`), a trailing separator
+does not open a new (empty) one. -/
 def splitStep (hay chars : Bytes) (ws : Bool) (st : Nat × List Bytes) (i : Nat) : Nat × List Bytes :=
   let (sp, toks) := st
   let ch := hay.getD i 0
@@ -49,13 +73,22 @@ def splitStep (hay chars : Bytes) (ws : Bool) (st : Nat × List Bytes) (i : Nat)
   let last := i + 1 = hay.length
   if sch ∨ last then
     let ep := if ¬ sch ∧ last then i + 1 else i
-    let tok := (hay.drop sp).take (ep - sp)
-    (i + 1, toks ++ [if ws then trimTok tok else tok])
+    (i + 1, toks ++ [token hay ws sp ep])
   else (sp, toks)
 
 /-- the strings `iwpool_split_string` returns -/
 def splitTokens (hay chars : Bytes) (ws : Bool) : List Bytes :=
   ((List.range hay.length).foldl (splitStep hay chars ws) (0, [])).2
+
+/-- `_iwpool_printf_estimate_size` + `_iwpool_printf_va`: `vsnprintf(buf, 1, …) + 1` bytes are allocated and the
+second `vsnprintf(wbuf, size, …)` writes `size - 1` bytes and the NUL: (allocation size, string stored) -/
+def printfAlloc (out : Bytes) : Nat × Bytes :=
+  let size := out.length + 1
+  (size, out.take (size - 1))
+
+/-- `iwpool_printf_split`: the formatted bytes (held in a heap buffer of `len + 1` bytes) are split -/
+def printfSplit (out chars : Bytes) (ws : Bool) : List Bytes :=
+  splitTokens (printfAlloc out).2 chars ws
 
 /-- pool accounting of `iwpool_split_string`: the pointer array, then one allocation per token -/
 def splitAlloc (p : Pool) (hay : Bytes) (toks : List Bytes) : Pool :=
@@ -80,6 +113,19 @@ def kid (s : Sys) (h : Nat) : Option Pool := (s.kids.find? (·.1 = h)).map (·.2
 
 def setKid (s : Sys) (h : Nat) (c : Pool) : Sys :=
   { s with kids := s.kids.map fun (i, q) => if i = h then (i, c) else (i, q) }
+
+/-- `iwpool_user_data_set(pool, data, free_fn)`: the previous user data goes to its free function -/
+def udSet (p : Pool) (id : Nat) : Pool × List Nat := ({ p with ud := some id }, p.ud.toList)
+
+/-- `iwpool_user_data_detach` (+ the caller clears the slot): the user data is the caller's again -/
+def udDetach (p : Pool) : Pool × List Nat := ({ p with ud := none }, p.ud.toList)
+
+/-- `iwpool_user_data_set` on an attached child -/
+def kidUdSet (s : Sys) (h : Nat) (id : Nat) : Option (Sys × List Nat) :=
+  (kid s h).map fun q => (setKid s h (udSet q id).1, (udSet q id).2)
+
+/-- `iwpool_ref` -/
+def ref (s : Sys) : Sys := { s with main := { s.main with refs := s.main.refs + 1 } }
 
 /-- `iwpool_destroy(child)`: unlinked from the parent (siblings stay), its user data freed -/
 def destroyKid (s : Sys) (h : Nat) : Sys × List Nat :=
